@@ -1,5 +1,5 @@
 CONSTANTS
-  MaxUI = 3
+  MaxUI = 4
   Kinds = {"finite", "endless"}
   TemplateHasQ = TRUE
 SPECIFICATION Spec
